@@ -1,6 +1,8 @@
 import Vflow.Proofs.RoundIpfix
 import Vflow.Proofs.HeaderLayouts
 import Vflow.Proofs.Interpret
+import Vflow.Proofs.IpfixIR
+import Vflow.Proofs.IpfixIRTpl
 import Vflow.Gen.Sites
 import Vflow.Spec.Sites
 /-!
@@ -375,6 +377,158 @@ theorem gen_optTplHeader_layout (r : Rd) (tid n sc : Nat) (r3 : Rd)
          match Ipfix.readSpecs ((n + 65536 - sc) % 65536) r4 [] with
          | (.error e, r5) => (.error e, r5)
          | (.ok fs, r5) => (.ok ⟨tid, n, sc, scs, fs⟩, r5)) := HeaderLayouts.ipfix_optTplHeader_read r tid n sc r3 h
+
+/-! ## Tie: the decoder's functions TRANSLATED statement by statement on every run (`Gen.IpfixIR`, from the Go AST by
+`go/cmd/factgen/ipfix_ir.go`) and interpreted with Go's semantics (`Model/IpfixIR.lean`: `Func.sem`, linked in
+`Model/IpfixProg.lean`) ARE the functions of the hand-written model — for every argument, reader state, cache, exporter
+address and fuel.  Not only the conditions (`guards_reviewed`) but what is assigned, in which order, what a loop carries
+and what is returned on which path.  Proofs in `Proofs/IpfixIR.lean`.  A function result is
+`some (state afterwards, final values of the by-pointer arguments, results)`; `none` would be a panic, an
+unrecognised statement or an unfinished loop. -/
+
+/-- the struct declarations the interpreter's field semantics (`fieldOf` / `setField`) stand for -/
+theorem gen_ir_structs :
+    Gen.IpfixIR.structs =
+      [("Decoder", "raddr net.IP; reader *reader.Reader"),
+       ("MessageHeader", "Version uint16; Length uint16; ExportTime uint32; SequenceNo uint32; DomainID uint32"),
+       ("TemplateHeader", "TemplateID uint16; FieldCount uint16; ScopeFieldCount uint16"),
+       ("TemplateRecord", "TemplateID uint16; FieldCount uint16; FieldSpecifiers []TemplateFieldSpecifier; ScopeFieldCount uint16; ScopeFieldSpecifiers []TemplateFieldSpecifier"),
+       ("TemplateFieldSpecifier", "ElementID uint16; Length uint16; EnterpriseNo uint32"),
+       ("Message", "AgentID string; Header MessageHeader; DataSets [][]DecodedField"),
+       ("DecodedField", "ID uint16; Value interface{}; EnterpriseNo uint32"),
+       ("SetHeader", "SetID uint16; Length uint16"),
+       ("nonfatalError", "error"),
+       ("ElementKey", "EnterpriseNo uint32; ElementID uint16"),
+       ("InfoElementEntry", "FieldID uint16; Name string; Type FieldType")] := by decide +kernel
+
+/-- **`Decoder.getDataLength` translated = `Ipfix.dataLen`**: same reader afterwards, same length or the reader's
+error (returned as a fatal error with length 0), the cache untouched, for every specifier length -/
+theorem gen_ir_getDataLength (addr : Bytes) (fuel : Nat) (r : Rd) (c : Cache) (len : Nat) :
+    IpfixProg.getDataLength addr fuel [.int len] ⟨r, c⟩ =
+      some (⟨(Ipfix.dataLen r len).2, c⟩, [], IpfixProg.lenResult (Ipfix.dataLen r len).1) :=
+  IpfixIR.getDataLength_sem addr fuel r c len
+
+/-- **`TemplateRecord.minRecordLen` translated = `Ipfix.minRecLen`** for every template (any number of scope and field
+specifiers: the two `range` loops need no fuel); the template and the decoder state are left as they were -/
+theorem gen_ir_minRecordLen (addr : Bytes) (fuel : Nat) (st : IpfixIR.St) (t : Template) :
+    IpfixProg.minRecordLen addr fuel [.tpl t] st = some (st, [.tpl t], [.int (Ipfix.minRecLen t)]) :=
+  IpfixIR.minRecordLen_sem addr fuel st t
+
+/-- **`Decoder.decodeData` translated = `Ipfix.decodeData`** for every template, reader state, cache and exporter:
+the two index loops over the scope and the field specifiers (element lookup, `getDataLength`, `Read`, `Interpret`,
+`append`, in this order), the non-fatal "not exist" / "failed to decodeData" errors and the fatal read errors, the
+reader position on every path.  `fuel` bounds the iterations of each loop: any value above the two specifier counts. -/
+theorem gen_ir_decodeData (addr : Bytes) (fuel : Nat) (r : Rd) (c : Cache) (t : Template)
+    (hs : t.scope.length < fuel) (hf : t.fields.length < fuel) :
+    IpfixProg.decodeData addr fuel [.tpl t] ⟨r, c⟩ =
+      some (⟨(Ipfix.decodeData t r).2, c⟩, [], IpfixProg.recResult (Ipfix.decodeData t r).1) :=
+  IpfixIR.decodeData_sem addr fuel r c t hs hf
+
+/-- **`TemplateFieldSpecifier.unmarshal` translated = `Ipfix.readSpec`** for every reader state and every previous
+content `s0` of the specifier (the decoder reuses one `tf` across the loop): ElementID, Length, the test `> 0x8000`, the
+mask `& 0x7fff` and the enterprise number, or `EnterpriseNo = 0`; on a short read the reader's error at the position
+the model reports (the specifier is then partly overwritten: `s'`) -/
+theorem gen_ir_fieldSpecUnmarshal (addr : Bytes) (fuel : Nat) (r : Rd) (c : Cache) (s0 : Spec) :
+    match Ipfix.readSpec r with
+    | (.ok s, r') => IpfixProg.fieldSpecUnmarshal addr fuel [.spec s0] ⟨r, c⟩ = some (⟨r', c⟩, [.spec s], [.nil])
+    | (.error e, r') => ∃ s', IpfixProg.fieldSpecUnmarshal addr fuel [.spec s0] ⟨r, c⟩ =
+        some (⟨r', c⟩, [.spec s'], [.err ⟨false, e⟩]) :=
+  IpfixIR.fieldSpecUnmarshal_sem addr fuel r c s0
+
+/-- **`TemplateHeader.unmarshal` translated**: TemplateID then FieldCount, 16 bits each; a failed read stores 0,
+returns the reader's error and leaves the reader where it was (stronger than `gen_tplHeader_layout`: order, error paths
+and positions, not only the widths) -/
+theorem gen_ir_tplHeaderUnmarshal (addr : Bytes) (fuel : Nat) (r : Rd) (c : Cache) (a b sc : Nat) :
+    IpfixProg.tplHeaderUnmarshal addr fuel [.thdr a b sc] ⟨r, c⟩ =
+      match r.rU16 with
+      | none => some (⟨r, c⟩, [.thdr 0 b sc], [IpfixIR.errReader])
+      | some (tid, r1) =>
+        match r1.rU16 with
+        | none => some (⟨r1, c⟩, [.thdr tid 0 sc], [IpfixIR.errReader])
+        | some (n, r2) => some (⟨r2, c⟩, [.thdr tid n sc], [.nil]) :=
+  IpfixIR.tplHeaderUnmarshal_sem addr fuel r c a b sc
+
+/-- **`TemplateHeader.unmarshalOpts` translated**: TemplateID, FieldCount, ScopeFieldCount -/
+theorem gen_ir_tplHeaderUnmarshalOpts (addr : Bytes) (fuel : Nat) (r : Rd) (c : Cache) (a b sc : Nat) :
+    IpfixProg.tplHeaderUnmarshalOpts addr fuel [.thdr a b sc] ⟨r, c⟩ =
+      match r.rU16 with
+      | none => some (⟨r, c⟩, [.thdr 0 b sc], [IpfixIR.errReader])
+      | some (tid, r1) =>
+        match r1.rU16 with
+        | none => some (⟨r1, c⟩, [.thdr tid 0 sc], [IpfixIR.errReader])
+        | some (n, r2) =>
+          match r2.rU16 with
+          | none => some (⟨r2, c⟩, [.thdr tid n 0], [IpfixIR.errReader])
+          | some (m, r3) => some (⟨r3, c⟩, [.thdr tid n m], [.nil]) :=
+  IpfixIR.tplHeaderUnmarshalOpts_sem addr fuel r c a b sc
+
+/-- **`SetHeader.unmarshal` translated**: SetID then Length — the two reads with which `Ipfix.decodeSet` begins -/
+theorem gen_ir_setHeaderUnmarshal (addr : Bytes) (fuel : Nat) (r : Rd) (c : Cache) (a b : Nat) :
+    IpfixProg.setHeaderUnmarshal addr fuel [.shdr a b] ⟨r, c⟩ =
+      match r.rU16 with
+      | none => some (⟨r, c⟩, [.shdr 0 b], [IpfixIR.errReader])
+      | some (sid, r1) =>
+        match r1.rU16 with
+        | none => some (⟨r1, c⟩, [.shdr sid 0], [IpfixIR.errReader])
+        | some (len, r2) => some (⟨r2, c⟩, [.shdr sid len], [.nil]) :=
+  IpfixIR.setHeaderUnmarshal_sem addr fuel r c a b
+
+/-- **`TemplateRecord.unmarshal` translated = `Ipfix.parseTpl`** on a fresh record (`tr := TemplateRecord{}` in
+`decodeSet`): header, the copies into `tr`, the count-down loop `for i := th.FieldCount; i > 0; i--` that appends one
+specifier per round — for every reader state.  `fuel`: more than the octets left (a specifier takes at least 4). -/
+theorem gen_ir_tplRecordUnmarshal (addr : Bytes) (fuel : Nat) (r : Rd) (c : Cache) (hfuel : r.rem.length < fuel) :
+    match Ipfix.parseTpl r with
+    | (.ok t, r') => IpfixProg.tplRecordUnmarshal addr fuel [.tpl Ipfix.emptyTpl] ⟨r, c⟩ = some (⟨r', c⟩, [.tpl t], [.nil])
+    | (.error e, r') => ∃ t', IpfixProg.tplRecordUnmarshal addr fuel [.tpl Ipfix.emptyTpl] ⟨r, c⟩ =
+        some (⟨r', c⟩, [.tpl t'], [.err ⟨false, e⟩]) :=
+  IpfixIR.tplRecordUnmarshal_sem addr fuel r c hfuel
+
+/-- **`TemplateRecord.unmarshalOpts` translated = `Ipfix.parseOptTpl`**: the scope loop, then the loop over
+`th.FieldCount - th.ScopeFieldCount` — a 16-bit subtraction that WRAPS when the scope count exceeds the field count,
+in the translation (`.bin .sub .u16`) as in the model (`(n + 65536 - sc) % 65536`) -/
+theorem gen_ir_tplRecordUnmarshalOpts (addr : Bytes) (fuel : Nat) (r : Rd) (c : Cache) (hfuel : r.rem.length < fuel) :
+    match Ipfix.parseOptTpl r with
+    | (.ok t, r') => IpfixProg.tplRecordUnmarshalOpts addr fuel [.tpl Ipfix.emptyTpl] ⟨r, c⟩ = some (⟨r', c⟩, [.tpl t], [.nil])
+    | (.error e, r') => ∃ t', IpfixProg.tplRecordUnmarshalOpts addr fuel [.tpl Ipfix.emptyTpl] ⟨r, c⟩ =
+        some (⟨r', c⟩, [.tpl t'], [.err ⟨false, e⟩]) :=
+  IpfixIR.tplRecordUnmarshalOpts_sem addr fuel r c hfuel
+
+/-- **`MessageHeader.unmarshal` translated = `Ipfix.readHeader`**: Version, Length (16 bits), ExportTime, SequenceNo,
+DomainID (32 bits) in this order; any short read gives the reader's error -/
+theorem gen_ir_msgHeaderUnmarshal (addr : Bytes) (fuel : Nat) (r : Rd) (c : Cache) (h0 : IpfixIR.MHdr) :
+    match Ipfix.readHeader r with
+    | some (h, r') => ∃ h1 : IpfixIR.MHdr, h1.toHdr = h ∧
+        IpfixProg.msgHeaderUnmarshal addr fuel [.mhdr h0] ⟨r, c⟩ = some (⟨r', c⟩, [.mhdr h1], [.nil])
+    | none => ∃ r' h1, IpfixProg.msgHeaderUnmarshal addr fuel [.mhdr h0] ⟨r, c⟩ =
+        some (⟨r', c⟩, [.mhdr h1], [IpfixIR.errReader]) :=
+  IpfixIR.msgHeaderUnmarshal_sem addr fuel r c h0
+
+/-- **`MessageHeader.validate` translated**: the version test of `Ipfix.decode` (`h.headD 0 ≠ 10`), a fatal error -/
+theorem gen_ir_msgHeaderValidate (addr : Bytes) (fuel : Nat) (st : IpfixIR.St) (h : IpfixIR.MHdr) :
+    IpfixProg.msgHeaderValidate addr fuel [.mhdr h] st =
+      some (st, [.mhdr h], [if h.toHdr.headD 0 ≠ 10 then .err ⟨false, .badVersion⟩ else .nil]) :=
+  IpfixIR.msgHeaderValidate_sem addr fuel st h
+
+set_option maxRecDepth 100000 in
+/-- non-vacuity: the translated `TemplateRecord.unmarshal` on the record `01 00 00 02 | 00 08 00 04 | 00 0c 00 04`
+(template 256 with two fields) and on the same record cut inside its second specifier -/
+example : IpfixProg.tplRecordUnmarshal [] 13 [.tpl Ipfix.emptyTpl] ⟨⟨[1, 0, 0, 2, 0, 8, 0, 4, 0, 12, 0, 4], 0⟩, []⟩ =
+    some (⟨⟨[], 12⟩, []⟩, [.tpl ⟨256, 2, 0, [], [⟨8, 4, 0⟩, ⟨12, 4, 0⟩]⟩], [.nil]) :=
+  gen_ir_tplRecordUnmarshal [] 13 ⟨[1, 0, 0, 2, 0, 8, 0, 4, 0, 12, 0, 4], 0⟩ [] (by decide)
+set_option maxRecDepth 100000 in
+example : ∃ t', IpfixProg.tplRecordUnmarshal [] 13 [.tpl Ipfix.emptyTpl] ⟨⟨[1, 0, 0, 2, 0, 8, 0, 4, 0, 12, 0], 0⟩, []⟩ =
+    some (⟨⟨[0], 10⟩, []⟩, [.tpl t'], [.err ⟨false, .short⟩]) :=
+  gen_ir_tplRecordUnmarshal [] 13 ⟨[1, 0, 0, 2, 0, 8, 0, 4, 0, 12, 0], 0⟩ [] (by decide)
+
+/-- non-vacuity: the translated `getDataLength` on the three-octet prefix `ff 01 00` and on a short reader; the
+translated `minRecordLen` on a template with a variable-length field -/
+example : IpfixProg.getDataLength [] 0 [.int 65535] ⟨⟨[255, 1, 0, 7], 0⟩, []⟩ = some (⟨⟨[7], 3⟩, []⟩, [], [.int 256, .nil]) ∧
+    IpfixProg.getDataLength [] 0 [.int 65535] ⟨⟨[255, 1], 0⟩, []⟩ = some (⟨⟨[1], 1⟩, []⟩, [], [.int 0, .err ⟨false, .short⟩]) ∧
+    IpfixProg.minRecordLen [] 0 [.tpl exTpl] ⟨⟨[], 0⟩, []⟩ = some (⟨⟨[], 0⟩, []⟩, [.tpl exTpl], [.int 5]) := by
+  refine ⟨?_, ?_, ?_⟩
+  · rw [gen_ir_getDataLength]; rfl
+  · rw [gen_ir_getDataLength]; rfl
+  · rw [gen_ir_minRecordLen]; rfl
 
 /-- **Tie (control-flow skeleton)**: every branch / loop condition, switch case and `break` / `continue` of the
 sources this model mirrors, re-extracted on every run, is exactly the reviewed inventory in `Spec/Sites.lean`
